@@ -305,7 +305,7 @@ def _shard(shard, col: Collector):
             if k == part:
                 col.sample({"operator": op, "boxes": boxes, "parents": parents, "cfg": cfg, "draws": draws}, 1)
     elif kind == "gen":
-        for gen, args in (("random", (0, 1, 3)), ("lhs", (1, 3, 5)), ("halton", (1, 4, 9)), ("uniform", (2, 3)),
+        for gen, args in (("random", (0, 1, 3, 1000, 1025)), ("lhs", (1, 3, 5, 513, 1025)), ("halton", (1, 4, 9, 513, 1025)), ("uniform", (2, 3)),
                           ("fullfact", (False, True)), ("pb", (None,)), ("bb", (None,))):
             for nparams in (1, 2, 3, 4):
                 if gen == "bb" and nparams < 3:
